@@ -170,7 +170,11 @@ impl AssignAddTransform {
         span: &Span,
     ) -> MemberExpr {
         let mut member = member.clone();
-        if !matches!(*member.obj, Expr::Ident(_) | Expr::This(_)) {
+        // `a[f()] += x` reads `a` before it calls `f`: when the key goes into a temporary the
+        // object goes first, whatever it is
+        let key_hoisted = matches!(&member.prop, MemberProp::Computed(computed)
+            if !matches!(*computed.expr, Expr::Ident(_) | Expr::Lit(_)));
+        if key_hoisted || !matches!(*member.obj, Expr::Ident(_) | Expr::This(_)) {
             if let Some(ident) = opv.ident_provider.get_temporal_ident_used_in_assignation(
                 &member.obj,
                 hoisted,
